@@ -6,7 +6,8 @@ ID="$1"; TIER="${2:-${VERIF_TIER:-quick}}"
 REPO="${GTCHECK_REPO:-/repo}"
 export PATH=/opt/veriftools/go1.26.8/bin:$PATH GOTOOLCHAIN=local GOFLAGS=-mod=mod GOPROXY=off GOSUMDB=off
 unset GOWORK
-if [ ! -x bin/gtcheck ] || [ -n "$(find checker -newer bin/gtcheck -name '*.go' -print -quit 2>/dev/null)" ]; then
+BIN="${GTCHECK_BIN:-bin/gtcheck}"   # test drivers pin a snapshot of the binary so that the checker can be edited meanwhile
+if [ -n "$GTCHECK_BIN" ]; then :; elif [ ! -x bin/gtcheck ] || [ -n "$(find checker -newer bin/gtcheck -name '*.go' -print -quit 2>/dev/null)" ]; then
   ./build.sh || { echo "CHECK-ERROR build failed"; exit 2; }
 fi
 EVD="${GTCHECK_EVIDENCE:-evidence}"
@@ -14,4 +15,4 @@ mkdir -p "$EVD"
 if [ "$TIER" = thorough ] && [ -x ./thorough.sh ]; then
   exec ./thorough.sh "$ID" "$REPO"
 fi
-exec ./bin/gtcheck -prop "$ID" -tier "$TIER" -repo "$REPO" -evidence "$EVD" -known known_findings.txt
+exec "$BIN" -prop "$ID" -tier "$TIER" -repo "$REPO" -evidence "$EVD" -known known_findings.txt
